@@ -29,7 +29,7 @@ m = {
     "hooks": {
         "guard": "--cfg rescrv_blue_verif",
         "enable": "RUSTFLAGS=\"--cfg rescrv_blue_verif\" (set by ./check for every build of /verif/harness, which depends on /repo's crates by path)",
-        "baseline_off_cmd": "cd /repo && cargo nextest run --workspace --no-fail-fast --offline || cargo test --workspace --no-fail-fast --offline",
+        "baseline_off_cmd": "cd /repo && cargo test --workspace --no-fail-fast --offline",
         "source_commits": list(reversed(hook_commits)),
         "add_only": True,
     },
